@@ -302,3 +302,133 @@ Proof. exact (pct_roundtrip_exact_fixed p). Qed.
 Print Assumptions percentage_read_back.
 Example leaf_codec_domains_nonvacuous : amount_ok (mkA (-12345) 3) = true /\ amount_ok (pct_amount (mkA 165 3)) = true.
 Proof. split; reflexivity. Qed.
+
+(* ------------------------------------------------------------------------------------------ *)
+(* typed serialisation                                                                         *)
+(* ------------------------------------------------------------------------------------------ *)
+(* Marshal/Typed.v: `reenc E fuel t j` is the JSON tree json.Marshal writes for the Go value json.Unmarshal
+   built from the tree j at the Go type t (type descriptors regenerated by reflection, Gen/GoTypes.v;
+   Ok / Bad = Go error / Dom = outside the modelled domain; `fuel` bounds the recursion and never changes
+   a result).  env_wfb / ty_wfb (Marshal/Wf.v): member names of a struct are ASCII and pairwise different
+   up to case, also from the legacy members of its hook; the fields a hook writes are strings; integer
+   kinds have at least one bit; interface-typed fields are omitempty.  `typed_env_well_formed` below is
+   the data theorem that the GENERATED environment satisfies this. *)
+From Verif Require Import Marshal.Typed Marshal.Wf Gen.GoTypes Marshal.Env Marshal.TypedLeafProofs Marshal.TypedProofs Marshal.EnvProofs.
+From Coq Require Import Sorting.Sorted.
+
+Theorem typed_env_well_formed : env_wfb go_env = true.
+Proof. exact go_env_wf. Qed.
+Print Assumptions typed_env_well_formed.
+
+(* parsing any serialised document and serialising it again is the identity: what was written is read
+   back and written identically *)
+Theorem reenc_idempotent E : env_wfb E = true -> forall fuel t j j', ty_wfb t = true ->
+  reenc E fuel t j = Ok j' -> reenc E fuel t j' = Ok j'.
+Proof. exact (TypedProofs.reenc_idempotent E). Qed.
+Print Assumptions reenc_idempotent.
+
+(* the written form of an absent member (the zero value) is read back identically *)
+Theorem zero_value_reads_back E : env_wfb E = true -> forall fuel t z, ty_wfb t = true -> is_any_ty t = false ->
+  zero_enc E fuel t = Ok z -> reenc E fuel t z = Ok z.
+Proof. exact (zero_enc_read_back E). Qed.
+Print Assumptions zero_value_reads_back.
+
+(* more fuel never changes a result *)
+Theorem reenc_fuel_monotone E f f' t j r : reenc E f t j = Ok r -> (f <= f')%nat -> reenc E f' t j = Ok r.
+Proof. exact (reenc_mono E f f' t j r). Qed.
+Print Assumptions reenc_fuel_monotone.
+
+(* members whose names are not, up to case, names the struct listens to are ignored, wherever they stand *)
+Theorem reenc_ignores_unknown_members E fuel h fs m1 x m2 :
+  (forall kv n, In kv x -> In n (map f_name fs ++ hook_names h) -> fold_eq (fst kv) n = false) ->
+  members_in_domain (map f_name fs ++ hook_names h) (m1 ++ x ++ m2) = true ->
+  reenc E fuel (TyStruct h fs) (TObj (m1 ++ x ++ m2)) = reenc E fuel (TyStruct h fs) (TObj (m1 ++ m2)).
+Proof. exact (ignores_unknown_members E fuel h fs m1 x m2). Qed.
+Print Assumptions reenc_ignores_unknown_members.
+
+(* the order of the members of an object read at a struct type is irrelevant *)
+Theorem reenc_struct_member_order_irrelevant E fuel h fs m m2 : Permutation m m2 ->
+  reenc E fuel (TyStruct h fs) (TObj m2) = reenc E fuel (TyStruct h fs) (TObj m).
+Proof. exact (struct_member_order_irrelevant E fuel h fs m m2). Qed.
+Print Assumptions reenc_struct_member_order_irrelevant.
+
+(* the written text has ONE layout: struct members in declaration order, map keys strictly increasing *)
+Theorem written_members_follow_declaration_order E fuel h fs j m :
+  reenc E fuel (TyStruct h fs) j = Ok (TObj m) -> sublist (map fst m) (map f_name fs).
+Proof. exact (written_members_in_declaration_order E fuel h fs j m). Qed.
+Print Assumptions written_members_follow_declaration_order.
+
+Theorem written_map_keys_strictly_sorted E fuel t j m :
+  reenc E fuel (TyMap t) j = Ok (TObj m) -> StronglySorted (fun a b => bytes_ltb a b = true) (map fst m).
+Proof. exact (written_map_keys_sorted E fuel t j m). Qed.
+Print Assumptions written_map_keys_strictly_sorted.
+
+(* null array elements of what is written come from null array elements of what was read *)
+Theorem written_null_elements_were_read E f t j j' :
+  reenc E f t j = Ok j' -> has_null_element (depth j) j = false -> has_null_element (depth j') j' = false.
+Proof. exact (reenc_NN E f t j j'). Qed.
+Print Assumptions written_null_elements_were_read.
+
+(* the generated environment: a document of a registered schema, or of a named Go type *)
+Theorem serialised_document_reads_back_identically fuel id t j j' : assoc id go_schemas = Some t ->
+  reenc go_env fuel t j = Ok j' -> reenc go_env fuel t j' = Ok j'.
+Proof. exact (go_schema_read_back fuel id t j j'). Qed.
+Print Assumptions serialised_document_reads_back_identically.
+
+Theorem serialised_value_reads_back_identically fuel n j j' :
+  reenc go_env fuel (TyRef n) j = Ok j' -> reenc go_env fuel (TyRef n) j' = Ok j'.
+Proof. exact (go_type_read_back fuel n j j'). Qed.
+Print Assumptions serialised_value_reads_back_identically.
+
+(* with the fuel the runner computes from the tree itself (fuel_for, Marshal/Env.v): that fuel is enough -
+   it gives the result any larger fuel gives (cost tables of the generated types: data theorems
+   go_cost_ok / go_cost_bound, Marshal/EnvProofs.v) - so a serialised document is read back and written
+   identically, whatever the depths of the two trees *)
+Theorem reenc_schema_fuel_is_enough id t j f r : assoc id go_schemas = Some t ->
+  reenc go_env f t j = Ok r -> reenc_schema id j = Ok r.
+Proof. exact (reenc_schema_fuel_enough id t j f r). Qed.
+Print Assumptions reenc_schema_fuel_is_enough.
+
+Theorem serialised_schema_document_reads_back_identically id j j' :
+  reenc_schema id j = Ok j' -> reenc_schema id j' = Ok j'.
+Proof. exact (reenc_schema_read_back_full id j j'). Qed.
+Print Assumptions serialised_schema_document_reads_back_identically.
+
+Theorem serialised_typed_value_reads_back_identically n j j' :
+  reenc_type n j = Ok j' -> reenc_type n j' = Ok j'.
+Proof. exact (reenc_type_read_back_full n j j'). Qed.
+Print Assumptions serialised_typed_value_reads_back_identically.
+
+(* non-vacuity: a note.Message with its members in scrambled order, an unknown member, a null title, a
+   map with a duplicate key and unsorted keys; and the same inside schema.Object *)
+Definition msg_schema : bytes := bs "https://gobl.org/draft-0/note/message".
+Definition msg_in : tv :=
+  TObj [(bs "meta", TObj [(bs "b", TStr (bs "2")); (bs "a", TStr (bs "1")); (bs "b", TStr (bs "3"))]);
+        (bs "x-unknown", TArr [TNum (bs "1")]);
+        (bs "content", TStr (bs "hello"));
+        (bs "title", TNull)].
+Definition msg_out : tv :=
+  TObj [(bs "content", TStr (bs "hello"));
+        (bs "meta", TObj [(bs "a", TStr (bs "1")); (bs "b", TStr (bs "3"))])].
+Example typed_read_back_nonvacuous :
+  reenc_schema msg_schema msg_in = Ok msg_out /\ reenc_schema msg_schema msg_out = Ok msg_out /\
+  assoc msg_schema go_schemas = Some (TyRef (bs "note.Message")) /\
+  reenc_type (bs "note.Message") msg_in = Ok msg_out.
+Proof. vm_compute. repeat split; auto. Qed.
+
+Definition obj_in : tv :=
+  TObj [(bs "content", TStr (bs "hello")); (bs "$schema", TStr msg_schema); (bs "x-unknown", TNum (bs "1"))].
+Definition obj_out : tv := TObj [(bs "$schema", TStr msg_schema); (bs "content", TStr (bs "hello"))].
+Example typed_object_read_back_nonvacuous :
+  reenc go_env 60 TyObject obj_in = Ok obj_out /\ reenc go_env 60 TyObject obj_out = Ok obj_out.
+Proof. vm_compute. split; reflexivity. Qed.
+
+Example unknown_member_hypotheses_nonvacuous :
+  let fs := [mkF (bs "content") false (TyLeaf LStr)] in
+  let x := [(bs "x-unknown", TNull)] in
+  (forall kv n, In kv x -> In n (map f_name fs ++ hook_names HNone) -> fold_eq (fst kv) n = false) /\
+  members_in_domain (map f_name fs ++ hook_names HNone) ([] ++ x ++ [(bs "content", TStr (bs "a"))]) = true.
+Proof.
+  cbv zeta. split; [|reflexivity].
+  intros kv n [<-|[]] [<-|[]]. reflexivity.
+Qed.
